@@ -52,7 +52,7 @@ HARNESSES = {
     'kb_schedule_2v2a': {'kind': 'bounded', 'domain': '2 video + 2 audio samples', 'timeout': 1800, 'tier': 'thorough'},
     'kb_days_to_ymd': {'kind': 'bounded', 'domain': 'day numbers 0..1499 (1970-01-01 .. 1974-02-08, includes a leap day)', 'timeout': 900, 'tier': 'quick'},
     'kb_frag_accept': {'kind': 'bounded', 'domain': '3 writes, all u64 DTS, public API only', 'timeout': 900, 'tier': 'quick'},
-    'kb_frag_flush': {'kind': 'bounded', 'domain': 'two one-sample fragments, all u64 DTS, public API only, mfhd/tfdt fields read back', 'timeout': 1200, 'tier': 'quick'},
+    'kb_frag_flush_ref': {'kind': 'bounded', 'domain': 'write, write, flush, write with all u64 DTS, public API only, segment serialiser stubbed', 'timeout': 900, 'tier': 'quick'},
     'kb_is_keyframe_h264': {'kind': 'bounded', 'domain': 'frames of 1..6 symbolic bytes, H.264 probe vs independent IDR scan', 'timeout': 900, 'tier': 'quick'},
     'kb_is_keyframe_h265': {'kind': 'bounded', 'domain': 'frames of 1..6 symbolic bytes, H.265 probe (panic freedom)', 'timeout': 900, 'tier': 'quick'},
     'kb_is_keyframe_av1_vp9': {'kind': 'bounded', 'domain': 'frames of 1..6 symbolic bytes, AV1 / VP9 probes (panic freedom)', 'timeout': 900, 'tier': 'quick'},
@@ -120,19 +120,54 @@ def parse(out):
     return res
 
 
+RSS_LIMIT_KB = 20 * 1024 * 1024      # a harness whose solver grows beyond 20 GB is stopped: undecided, never an alarm
+
+
+def _group_rss_kb(pgid):
+    total = 0
+    for pid in os.listdir('/proc'):
+        if not pid.isdigit():
+            continue
+        try:
+            if os.getpgid(int(pid)) != pgid:
+                continue
+            for line in open('/proc/%s/status' % pid):
+                if line.startswith('VmRSS:'):
+                    total += int(line.split()[1])
+                    break
+        except Exception:
+            continue
+    return total
+
+
 def run_one(scratch, h, timeout):
     t0 = time.time()
     env = dict(os.environ, CARGO_NET_OFFLINE='true')
-    try:
-        p = subprocess.run(['cargo', 'kani', '-Z', 'stubbing', '--harness', h], cwd=scratch, capture_output=True, text=True,
-                           env=env, timeout=timeout)
-        out = p.stdout + p.stderr
+    logp = os.path.join(scratch, 'verif-kani-%s.log' % h)
+    with open(logp, 'w') as lf:
+        p = subprocess.Popen(['cargo', 'kani', '-Z', 'stubbing', '--harness', h], cwd=scratch, stdout=lf, stderr=subprocess.STDOUT,
+                             env=env, start_new_session=True)
+        why = None
+        while p.poll() is None:
+            time.sleep(2)
+            if time.time() - t0 > timeout:
+                why = 'timeout'
+            elif _group_rss_kb(p.pid) > RSS_LIMIT_KB:
+                why = 'memory'
+            if why:
+                try:
+                    os.killpg(p.pid, 9)
+                except Exception:
+                    pass
+                p.wait()
+                break
+    out = open(logp, errors='replace').read()
+    if why:
+        r = {'status': 'timeout', 'failed_checks': [], 'checks': 0, 'time_s': time.time() - t0, 'stopped': why}
+    else:
         r = parse(out)
         if r['status'] == 'tool':
             r['tail'] = out[-1500:]
-    except subprocess.TimeoutExpired:
-        r = {'status': 'timeout', 'failed_checks': [], 'checks': 0, 'time_s': timeout}
-        subprocess.run(['pkill', '-f', 'cbmc.*%s' % os.path.basename(scratch)], capture_output=True)
     r['harness'] = h
     r['wall_s'] = round(time.time() - t0, 1)
     return r
